@@ -27,6 +27,7 @@ def arr(name, shape=None, unit=None, frame=None, sign=None, ndim=None, origin=No
     v = Val(data={o}, shape=shape, unit=unit, frame=frame, sign=sign, fresh=("ALIAS", frozenset({o})),
             term=("in", o), tags=t)
     v.tags.setdefault("deg", {o: 1})
+    v.tags.setdefault("poly", {(o,): 1})
     return v
 
 
@@ -93,6 +94,9 @@ def lsq_inputs(K="vec", baseline="vec", W="mat", lb="nonneg", ub="finite", bs="s
         kw["K"] = none()
     if baseline == "vec":
         kw["baseline"] = arr("baseline", S("F"), U_CAPTURE, "BASE")
+    elif baseline == "scalar":
+        # a scalar baseline as the estimator stores it: a one-element array
+        kw["baseline"] = arr("baseline", S("1"), U_CAPTURE, "BASE")
     else:
         kw["baseline"] = none()
     if W == "mat":
